@@ -82,7 +82,7 @@ PROPS["C15"] = dict(
 PROPS["C01"] = dict(
     harness="p_sem",
     phases=dict(quick=[rc(8, 1200), rc(8, 6000, flavour="fast", seed_offset=100)],
-                thorough=[rc(16, 15000), rc(16, 70000, flavour="fast", seed_offset=100)]),
+                thorough=[rc(16, 15000), rc(16, 70000, flavour="fast", seed_offset=100), fuzz(8, 300, max_len=500)]),
     rule=("cases: typed random programs (0-5 program definitions incl. redefinition and OUT=parameter, nested LOOP/WHILE, labels and "
           "forward/backward GOTO / IF-GOTO also into and out of loop bodies, nested calls as arguments, id+int / id-int sugar, a library "
           "of user macros with native meaning: <V>&<V>, <V>*<V> (priorities drawn from pools and optionally swapped, the AST built for the "
@@ -178,7 +178,7 @@ PROPS["C16"] = dict(
 
 PROPS["C04"] = dict(
     harness="p_accept",
-    phases=dict(quick=[enum(8), rc(8, 2500)], thorough=[enum(16), rc(16, 60000)]),
+    phases=dict(quick=[enum(8), rc(8, 2500)], thorough=[enum(16), rc(16, 60000), fuzz(8, 300, max_len=500)]),
     rule=("cases: generated valid macro-free sources (free layout, all keyword spellings, +/- sugar, optionally split over two files) "
           "unmutated (30%), with 1-4 token deletions/insertions/replacements/adjacent swaps/truncations over the language vocabulary plus "
           "junk tokens (60%), token soup (10%), statement sequences of 250-450 statements; plus every single-token edit of 2 (quick) / 3 (thorough) fixed base programs. Oracle: "
